@@ -41,7 +41,7 @@ KINDS = ["bitflip", "truncate", "extend", "drop", "dup", "swap", "replay_old",
          "cross_epoch", "extend_front", "byz_inner"]
 WEIGHTED = ["bitflip"] * 6 + KINDS
 PROBES = KINDS + ["tls13_keyupdate_epoch", "etm", "aead", "stream", "null",
-                  "hs_epoch", "hs_epoch_inject", "hs_epoch_bitflip",
+                  "read_after_rejection", "hs_epoch", "hs_epoch_inject", "hs_epoch_bitflip",
                   "hs_epoch_truncated_copy", "hs_epoch_reflect"]
 COMPONENTS_REAL = ["tlslite record layer (protect/unprotect paths of every "
                    "suite class), TLSRecordLayer._getMsg error mapping"]
@@ -457,6 +457,14 @@ def run(job, streams=None):
     st = sim_script.run_script(sim, eps, script2, op_gen_factory(None))
     fired = bool(m.fired) or extra_ops is not None
     rx = eps[R]
+    # the application reads once more after a failed read: whatever is still
+    # in the transport (honest ciphertext, forged bytes) must not come out
+    again = None
+    rd_ = [o for o in rx.history if o.desc[0] == "read"]
+    if rd_ and rd_[-1].kind == "exc" and rx.op is None:
+        again = rx.start(("read_again", None, 1),
+                         lambda: rx.conn.readAsync(None, 1))
+        sim.run()
     sendtap = tp[S][0]
     recvtap = tp[R][1]
     msgtap = tp[R][2]
@@ -542,7 +550,18 @@ def run(job, streams=None):
                 v("forged_data", detail, "read returned bytes the peer never "
                   "wrote")
             pos += len(d)
+    if again is not None and again.kind == "ok" and again.value:
+        # honest bytes that were already decrypted before the forgery may
+        # still be handed out; anything else must not
+        d = bytes(again.value)
+        if want_all[pos:pos + len(d)] != d:
+            v("data_after_rejection", detail,
+              "a read() after the rejected record returned %d bytes the "
+              "peer never wrote at that position (%s...)" %
+              (len(d), d[:8].hex()))
     probes = {}
+    if again is not None:
+        probes["read_after_rejection"] = 1
     if fired:
         probes[kind] = 1
     if ku_at is not None:
